@@ -21,6 +21,9 @@ McInitPops ==
     \cup {<<Ind(0, Sol(k)), Ind(0, Sol(8 - k))>> : k \in {-9, -8, -1, 0, 3, 8, 9, 16, 17} \cap McLattice}
     \cup {<<Ind(0, NonLat(c))>> : c \in {"below", "inside", "above", "below_r", "above_r"}}
     \cup {<<Ind(0, Sol(-8)), Ind(0, NonLat("above")), Ind(0, Sol(4))>>}
+    \* evaluated individuals that need repair (repair after evaluation), alone and mixed with unevaluated ones
+    \cup {<<Ind(1, Sol(k))>> : k \in {-9, -1, 0, 4, 8, 9, 17} \cap McLattice}
+    \cup {<<Ind(1, Sol(-8)), Ind(0, Sol(12)), Ind(1, NonLat("above"))>>}
 
 McCands == {C("inside", NoK), LatC(0), LatC(8), LatC(5), C("above_r", NoK), C("below_r", NoK)}
 
